@@ -28,6 +28,8 @@ CHECKS["C08"] = {
         {"test": "TestC08VarintBytes", "prop": "C08/varintbytes", "quick": 30000, "thorough": 2000000, "shards_quick": 1, "shards_thorough": 4},
         {"test": "TestC08Split", "prop": "C08/split", "quick": 20000, "thorough": 400000, "shards_quick": 2, "shards_thorough": 8},
         {"test": "TestC08Exhaustive", "prop": "C08/exhaustive", "quick": 1, "thorough": 1, "shards": 1},
+        {"fuzz": "FuzzParseFrame", "pkg": "./wire", "prop": "C08/fuzz_parseframe", "secs": 60},
+        {"fuzz": "FuzzVarint", "pkg": "./wire", "prop": "C08/fuzz_varint", "secs": 30},
     ],
     "floors": {"C08/differential": {"class_error": 0.03, "class_need-more": 0.10, "class_ok": 0.15, "completed": 0.05},
                "C08/varintbytes": {"class_error": 0.03, "class_need-more": 0.1},
@@ -51,6 +53,7 @@ CHECKS["C09"] = {
         {"test": "TestC09Reassembly", "prop": "C09/reassembly", "quick": 60000, "thorough": 4000000, "shards_quick": 8, "shards_thorough": 16},
         {"test": "TestC09Hostile", "prop": "C09/hostile", "quick": 300, "thorough": 5000, "shards_quick": 2, "shards_thorough": 4},
         {"test": "TestC09Stall", "prop": "C09/stall", "quick": 300, "thorough": 3000, "shards": 1},
+        {"fuzz": "FuzzReader", "pkg": "./wire", "prop": "C09/fuzz_reader", "secs": 90},
     ],
     "floors": {"C09/reassembly": {"@nontrivial": 0.2, "ev_discard_unfinished": 0.05, "ev_continuation": 0.3, "ev_id_backwards": 0.03, "ev_kind_change": 0.01,
                                   "ev_oversize_packet": 0.02, "class_protocol": 0.2, "class_io": 0.2}},
@@ -88,7 +91,7 @@ CHECKS["C13"] = {
              "alphabet weighted to '%', '=', hex/non-hex, the gateway's body readers with dishonest length fields / corrupt base64 / bodies around the limit, and the gateway's "
              "error-code extraction on hostile error values (nil Unwrap/Cause, cycles, wrong-arity Code methods, typed nil). Non-trivial: the input reaches past the first validation branch "
              "(>= 4 bytes for frames/reader, >= 2 bytes for metadata, >= 1 escape for headers, any error outcome for the gateway)."),
-    "assumptions": ["packet dispatch in stream and manager under arbitrary frame sequences is exercised by the E3 checks (C02/C05) rather than here",
+    "assumptions": ["packet dispatch in stream and manager is driven by a wire-level peer sending arbitrary frame sequences (sub-check manager_frames); a panic on a library goroutine kills the shard and is reported from its stack trace",
                     "allocation is bounded by observing runtime.MemStats.TotalAlloc around the call (gateway) and buffer capacities / largest requested read (reader)"],
     "subs": [
         {"test": "TestC08Differential", "prop": "C13/differential", "quick": 60000, "thorough": 4000000, "shards_quick": 4, "shards_thorough": 8, "env": {"VERIF_ID_OVERRIDE": "C13"}},
@@ -101,8 +104,14 @@ CHECKS["C13"] = {
         {"test": "TestC13Header", "prop": "C13/http_header", "pkg": "./http", "quick": 60000, "thorough": 4000000, "shards_quick": 4, "shards_thorough": 8},
         {"test": "TestC14Gateway", "prop": "C13/gateway", "pkg": "./http", "quick": 30000, "thorough": 1000000, "shards_quick": 4, "shards_thorough": 8, "env": {"VERIF_ID_OVERRIDE": "C13"}},
         {"test": "TestC14Limits", "prop": "C13/limits", "pkg": "./http", "quick": 200, "thorough": 4000, "shards_quick": 4, "shards_thorough": 8, "env": {"VERIF_ID_OVERRIDE": "C13"}},
+        {"test": "TestC13ManagerFrames", "prop": "C13/manager_frames", "pkg": "./conn", "quick": 16000, "thorough": 600000, "shards_quick": 16, "shards_thorough": 16, "gomaxprocs": 1},
+        {"fuzz": "FuzzParseFrame", "pkg": "./wire", "prop": "C13/fuzz_parseframe", "secs": 45},
+        {"fuzz": "FuzzReader", "pkg": "./wire", "prop": "C13/fuzz_reader", "secs": 60},
+        {"fuzz": "FuzzMetadataDecode", "pkg": "./meta", "prop": "C13/fuzz_metadata_decode", "secs": 45},
+        {"fuzz": "FuzzUnmarshalError", "pkg": "./meta", "prop": "C13/fuzz_unmarshal_error", "secs": 20},
+        {"fuzz": "FuzzMetadataHeader", "pkg": "./http", "prop": "C13/fuzz_metadata_header", "secs": 45},
     ],
-    "floors": {"C13/codec_decode": {"rejected": 0.3, "accepted": 0.1}, "C13/http_header": {"rejected": 0.2, "accepted": 0.1}},
+    "floors": {"C13/codec_decode": {"rejected": 0.3, "accepted": 0.1}, "C13/http_header": {"rejected": 0.2, "accepted": 0.1}, "C13/manager_frames": {"reached_a_handler": 0.2, "server_terminated_the_connection": 0.2, "server_kept_serving": 0.1}},
 }
 
 CHECKS["C10"] = {
@@ -137,6 +146,7 @@ CHECKS["C11"] = {
     "subs": [
         {"test": "TestC11RoundTrip", "prop": "C11/codec_roundtrip", "quick": 40000, "thorough": 2000000, "shards_quick": 4, "shards_thorough": 8},
         {"test": "TestC11Decode", "prop": "C11/codec_decode", "quick": 60000, "thorough": 4000000, "shards_quick": 4, "shards_thorough": 8},
+        {"fuzz": "FuzzMetadataDecode", "pkg": "./meta", "prop": "C11/fuzz_metadata_decode", "secs": 45},
         {"test": "TestC11EndToEnd", "prop": "C11/end_to_end", "pkg": "./conn", "quick": 8000, "thorough": 300000, "shards_quick": 16, "shards_thorough": 16, "gomaxprocs": 1},
     ],
     "floors": {"C11/codec_roundtrip": {"empty_string": 0.2, "binary": 0.3, "long_string": 0.1}, "C11/codec_decode": {"rejected": 0.3, "accepted": 0.1},
